@@ -250,7 +250,17 @@ func c07(r *core.Report) {
 			}
 			if ret, ok := n.(*ast.ReturnStmt); ok && ret != t1[len(t1)-1] && len(ret.Results) == 1 {
 				if na.Classify(f1, ret.Results[0], ret) != core.NonNil {
-					bad = ret.Pos()
+					// an early nil is right for a requirement without schemes: `len(names) == 0`
+					empty := false
+					for _, a := range core.Atoms(core.GuardsAt(info, v1.Body, ret)) {
+						s := core.ExprStr(a.Expr)
+						if a.Pos && strings.HasPrefix(s, "len(") && strings.HasSuffix(s, "== 0") {
+							empty = true
+						}
+					}
+					if !empty {
+						bad = ret.Pos()
+					}
 				}
 			}
 			return true
@@ -485,6 +495,7 @@ func c07(r *core.Report) {
 			r.Check(other == "" && n >= 1, "excl:scope:"+opt, p.Pos(fd.Pos()), fmt.Sprintf("read %d times, only in ValidateRequest", n), "option "+opt+" is also read in "+other+": it switches more than its part")
 		}
 	})
+	c07Anonymous(r)
 }
 
 func fieldOwner(f *types.Var) string {
@@ -530,4 +541,91 @@ func firstSel(e ast.Expr) ast.Expr {
 		return e
 	}
 	return out
+}
+
+// c07Anonymous: an empty requirement ({}: anonymous access) needs no authentication -- and hence no
+// authentication callback. The "callback missing" error may be returned only where there is a
+// scheme to authenticate.
+func c07Anonymous(r *core.Report) {
+	p := r.Prog
+	info := p.Pkg("openapi3filter").TypesInfo
+	r.RunRule("C07.anonymous", "an empty requirement needs no authentication callback: in validateSecurityRequirement every return of a missing-callback error (a package-level error variable returned on the `f == nil` side of the AuthenticationFunc test) is reached only where the requirement was tested non-empty (`len(x) != 0` on the requirement or on the list of its names)", 1, func() {
+		fd := p.DeclOf("openapi3filter", "validateSecurityRequirement")
+		ff := core.NewFuncFacts(p, info, fd)
+		// the requirement parameter and anything of the same length derived from it (names)
+		var req types.Object
+		for _, f := range fd.Type.Params.List {
+			if nn := core.NamedOf(info.TypeOf(f.Type)); nn != nil && nn.Obj().Name() == "SecurityRequirement" && len(f.Names) == 1 {
+				req = info.ObjectOf(f.Names[0])
+			}
+		}
+		if req == nil {
+			core.Fail("validateSecurityRequirement has no SecurityRequirement parameter")
+		}
+		n := 0
+		ast.Inspect(fd.Body, func(nd ast.Node) bool {
+			if _, isLit := nd.(*ast.FuncLit); isLit {
+				return false
+			}
+			ret, ok := nd.(*ast.ReturnStmt)
+			if !ok || len(ret.Results) != 1 {
+				return true
+			}
+			id, ok := ast.Unparen(ret.Results[0]).(*ast.Ident)
+			if !ok {
+				return true
+			}
+			v, ok := info.ObjectOf(id).(*types.Var)
+			if !ok || v.Parent() != v.Pkg().Scope() || !isErrorType(v.Type()) {
+				return true
+			}
+			// on the nil side of a function-valued variable?
+			atoms := core.Atoms(core.GuardsAt(info, fd.Body, ret))
+			onNilFunc := false
+			nonEmpty := false
+			for _, a := range atoms {
+				be, ok := ast.Unparen(a.Expr).(*ast.BinaryExpr)
+				if !ok {
+					continue
+				}
+				for _, pair := range [][2]ast.Expr{{be.X, be.Y}, {be.Y, be.X}} {
+					if tv, ok := info.Types[pair[1]]; ok && tv.IsNil() {
+						if _, isFn := info.TypeOf(pair[0]).Underlying().(*types.Signature); isFn {
+							if (be.Op == token.EQL) == a.Pos {
+								onNilFunc = true
+							}
+						}
+					}
+					// len(x) != 0 / len(x) > 0 with x the requirement or a list built from its keys
+					if c, ok := ast.Unparen(pair[0]).(*ast.CallExpr); ok && len(c.Args) == 1 {
+						if fn, ok := c.Fun.(*ast.Ident); ok && fn.Name == "len" {
+							if z, ok := intConst(info, pair[1]); ok && z == 0 {
+								rs := ff.Roots(c.Args[0], true)
+								if rs.Objs[req] {
+									switch {
+									case be.Op == token.NEQ && a.Pos, be.Op == token.EQL && !a.Pos, be.Op == token.GTR && a.Pos && pair[0] == be.X, be.Op == token.LSS && a.Pos && pair[0] == be.Y:
+										nonEmpty = true
+									}
+								}
+							}
+						}
+					}
+				}
+			}
+			if !onNilFunc {
+				return true
+			}
+			n++
+			key := fmt.Sprintf("anonymous:%s#%d", id.Name, n)
+			if nonEmpty {
+				r.OK(key, p.Pos(ret.Pos()), "the missing-callback error is returned only for a requirement that names a scheme")
+			} else {
+				r.Bad(key, p.Pos(ret.Pos()), fmt.Sprintf("`return %s` on the missing-callback branch does not depend on the requirement having any scheme: an operation (or document) whose security is `[{}]` — anonymous access — is rejected whenever no AuthenticationFunc is configured, although nothing has to be authenticated", id.Name))
+			}
+			return true
+		})
+		if n == 0 {
+			core.Fail("no return of a package-level error on the nil-callback branch found in validateSecurityRequirement")
+		}
+	})
 }
